@@ -144,6 +144,17 @@ def run(tier, seed):
 
 
 def replay(path):
+    """Re-run one recorded command; the evidence file of the last full run is left untouched."""
+    ev = os.path.join(V.ROOT, "evidence", PROP + ".json")
+    saved = open(ev).read() if os.path.exists(ev) else None
+    try:
+        return _replay(path)
+    finally:
+        if saved is not None:
+            open(ev, "w").write(saved)
+
+
+def _replay(path):
     d = json.load(open(path))
     print(json.dumps(d, indent=1)[:3000])
     case = d.get("case")
